@@ -204,6 +204,16 @@ def run(ctx: Check, tree: Tree) -> None:
                              "==": (False, True, False), "!=": (True, False, True)}[cond.op]
                     neg, zero, pos = table if sign > 0 else (table[2], table[1], table[0])
                     return {-1: neg, 0: zero, 1: pos, "nan": cond.op == "!="}
+            # Kibble compared with a non-zero number: the boundary of the indicator is moved off the Dalitz-plot limits
+            for sign, side in ((1, lhs), (-1, -lhs)):
+                r = side.normalized()
+                if r.d.is_const() and r.d.const_value() == 1 and len(r.n.t) == 2 and () in r.n.t:
+                    ((m, c),) = [(m, c) for m, c in r.n.t.items() if m != ()]
+                    if c == 1 and len(m) == 1 and m[0][1] == 1 and te.is_app(m[0][0], "::Kibble"):
+                        kibble_atoms[m[0][0]] = True
+                        problems.append(f"{fn.qual}: branch condition `{cond!r:.80}` compares Kibble(...) with the non-zero number {-r.n.t[()] if sign > 0 else r.n.t[()]} - "
+                                        "the indicator changes value at Kibble = that number, not at the Dalitz-plot limits (Kibble = 0), for every mass scale")
+                        return {-1: True, 0: True, 1: True, "nan": True}
         verdict = threshold(cond)
         if verdict is not None and verdict[0] == "wrong":
             problems.append(verdict[1])
